@@ -60,6 +60,9 @@ def fault_specs(ctx):
         npos = o["npos"]
         fl = list(faults) + (["sorry"] if s["client"] == "ebyte" and s["cb"] == "ret" else [])
         for f in fl:
+            if f == "sorry":        # 30 s sleep before the client gives up the connection: longer recovery tail
+                s = dict(s)
+                s["script"] = s["script"][:-len(vloop.RECOVERY_TAIL)] + [["run", 45.0], ["frames", 1], ["run", 0.5]]
             # quick: the slow-callback family and the long-refusal family at every second position
             stride = 1 if (thorough or (s["cb"] == "ret" and f != "refuse3_eof")) else 2
             for at in range(0, npos + 1, stride):
@@ -93,7 +96,7 @@ def correspond(ctx):
     class RS:
         attempt_number = 1
     w = wait_exponential(multiplier=0.5, max=10)
-    ks = list(range(1, 5001)) + [1 << 20, (1 << 31) + 7]
+    ks = list(range(1, 5001))
     cases, raw = [], []
     for k in ks:
         RS.attempt_number = k
@@ -110,7 +113,7 @@ def correspond(ctx):
              distinct_nontrivial=len(ks), failing_cases=[{"attempt": raw[i][0], "impl_half_seconds": raw[i][1]}
                                                          for i in r["failing"][:20]],
              samples=[{"attempt": k, "half_seconds": v} for k, v in raw[:7]],
-             distribution={"attempts": "1..5000, 2^20, 2^31+7 (the last two and every k >= 1026 take the OverflowError branch)"})
+             distribution={"attempts": "1..5000 (every k >= 1026 takes the OverflowError branch)"})
     reports.append(r)
     # ---- corr_client_lts
     specs, meta = _runs(ctx)
@@ -166,6 +169,7 @@ def judge(o, spec):
     if o.get("crash"):
         return {"key": "harness:crash", "what": f"{c}: run crashed: {o['crash']}"}
     st = [s[1] for s in o["status"]]
+    status = [(s[0], s[1]) for s in o["status"]]
     if any(a == b for a, b in zip(st, st[1:])):
         return {"key": "status:repeated", "what": f"{c}: status callback got the same state twice in a row: {st}"}
     # heartbeat: one beat per 0.1 virtual seconds
@@ -180,17 +184,21 @@ def judge(o, spec):
     closed = 2 in st
     if not closed:
         # every fault the peer caused on a connected client must have been reported, and the client must be back
+        if o["state"] == 0 and o["status"] and o["status"][-1][1] == 0 and o["status"][-1][2]:
+            return {"key": "recover:reconnect-request-dropped",
+                    "what": f"{c}: a fault was reported (DISCONNECTED at t={o['status'][-1][0]:.2f}) while a connect() still held "
+                            f"the lock after its link was up; the handler's connect() returned 'already running' and nobody "
+                            f"reconnected: final state DISCONNECTED, status {st}, attempts {o['attempts']}"}
         if o["state"] != 1 or not o["rx_alive"]:
-            # the one legitimate exception: nothing ever asked the client to connect
             return {"key": "recover:not-connected", "what": f"{c}: gateway accepting again but final state {o['state']}, "
                                                            f"receive loop alive={o['rx_alive']}, status {st}, attempts {o['attempts']}"}
         for vt, what in o["faults"]:
             # a DISCONNECTED (0) notification at or after the fault time, then a CONNECTED (1)
-            after = [s for t, s in o["status"] if t >= vt - 1e-9]
+            after = [s for t, s in status if t >= vt - 1e-9]
             if 0 not in after or 1 not in after[after.index(0):]:
                 # EOF/reset delivered while the client was not connected (or to a reader the loop no longer reads) is not a
                 # fault of a live connection: only judge faults that hit a CONNECTED client with a live loop
-                if [s for t, s in o["status"] if t < vt - 1e-9][-1:] == [1]:
+                if [s for t, s in status if t < vt - 1e-9][-1:] == [1]:
                     return {"key": f"recover:{what}:not-reported", "what": f"{c}: {what} at t={vt:.2f} on a connected client "
                                                                           f"was not followed by DISCONNECTED then CONNECTED: {o['status']}"}
         # new frames after the recovery are delivered (the tail feeds one frame 0.5 s before the end)
